@@ -429,7 +429,7 @@ class C09(Engine):
 	def canonical_cases(self) -> list[dict[str, Any]]:
 		cases: list[dict[str, Any]] = []
 		pool = pools.fixed_pool(0)
-		top = pool['modules'][0]
+		top = pools.core(pool)[0]
 		for m in pool['modules'] + LIB_MODULES:
 			cases.append({'mode': 'identity', 'pool': pool, 'module': m, 'schedule': []})
 		cases.append({'mode': 'identity', 'pool': pool, 'module': top, 'schedule': [{'at': 5, 'root': 40, 'max_depth': 3}]})
